@@ -91,3 +91,83 @@ var HostileValues = []string{
 }
 
 func HostileValue(r *rand.Rand) string { return HostileValues[r.Intn(len(HostileValues))] }
+
+// WellKnownAttrValues: the keyword sets HTML defines for enumerated attributes (and a few
+// values real pages carry in free-form ones). Code that special-cases an attribute value
+// almost always special-cases one of these.
+var WellKnownAttrValues = map[string][]string{
+	"type": {"text/javascript", "module", "application/json", "application/ld+json", "importmap", "text/css", "text/template", "text/plain", "submit", "button", "reset", "image", "checkbox", "radio", "hidden", "file", "password", "text", "email", "url", "number", "range", "color", "date", "search", "tel",
+		"a", "A", "i", "I", "1", "disc", "circle", "square", "image/png", "image/svg+xml", "video/mp4", "audio/mpeg", "application/x-shockwave-flash", "text/html"},
+	"rel":             {"nofollow", "noopener", "noreferrer", "stylesheet", "icon", "preload", "prefetch", "dns-prefetch", "preconnect", "modulepreload", "canonical", "alternate", "author", "tag", "me", "ugc", "sponsored", "opener", "external", "next", "prev", "import", "manifest", "noopener noreferrer", "nofollow ugc"},
+	"target":          {"_blank", "_self", "_parent", "_top", "_BLANK", "_unfencedTop", "frame1", ""},
+	"method":          {"get", "post", "dialog", "GET"},
+	"dir":             {"ltr", "rtl", "auto", "LTR"},
+	"lang":            {"en", "en-GB", "zh-Hans", "es-419", "de-CH-1996", "x-klingon", "i-default", "EN"},
+	"shape":           {"rect", "circle", "poly", "default", "rectangle", "polygon"},
+	"scope":           {"row", "col", "rowgroup", "colgroup", "auto"},
+	"align":           {"left", "right", "center", "justify", "char", "top", "middle", "bottom", "absmiddle", "texttop", "baseline", "absbottom"},
+	"valign":          {"top", "middle", "bottom", "baseline"},
+	"crossorigin":     {"anonymous", "use-credentials", "", "Anonymous"},
+	"loading":         {"lazy", "eager"},
+	"decoding":        {"async", "sync", "auto"},
+	"referrerpolicy":  {"no-referrer", "origin", "unsafe-url", "strict-origin-when-cross-origin", "same-origin"},
+	"http-equiv":      {"refresh", "content-security-policy", "content-type", "set-cookie", "x-ua-compatible", "Refresh"},
+	"content":         {"0;url=javascript:alert(1)", "0; URL=http://evil.example/", "text/html; charset=utf-7", "width=device-width"},
+	"charset":         {"utf-8", "utf-7", "UTF-8"},
+	"media":           {"all", "print", "screen", "(max-width: 600px)", "screen and (color)"},
+	"as":              {"script", "style", "image", "font", "fetch", "document"},
+	"kind":            {"subtitles", "captions", "descriptions", "chapters", "metadata"},
+	"preload":         {"none", "metadata", "auto", ""},
+	"autocomplete":    {"on", "off", "name", "email", "current-password", "cc-number"},
+	"enctype":         {"application/x-www-form-urlencoded", "multipart/form-data", "text/plain"},
+	"formenctype":     {"multipart/form-data", "text/plain"},
+	"formmethod":      {"get", "post"},
+	"wrap":            {"soft", "hard", "off"},
+	"contenteditable": {"true", "false", "", "plaintext-only"},
+	"draggable":       {"true", "false"},
+	"spellcheck":      {"true", "false", ""},
+	"translate":       {"yes", "no"},
+	"hidden":          {"", "hidden", "until-found"},
+	"role":            {"button", "link", "presentation", "none", "img", "dialog"},
+	"aria-hidden":     {"true", "false"},
+	"open":            {"", "open", "OPEN"},
+	"nowrap":          {"", "nowrap"},
+	"controls":        {"", "controls"},
+	"async":           {""}, "defer": {""}, "nomodule": {""}, "disabled": {""}, "checked": {""}, "selected": {""}, "multiple": {""}, "readonly": {""}, "required": {""}, "autofocus": {""}, "autoplay": {""}, "loop": {""}, "muted": {""}, "ismap": {""}, "reversed": {""}, "allowfullscreen": {""}, "download": {"", "file.txt"},
+	"sandbox":     {"", "allow-scripts", "allow-same-origin allow-scripts", "allow-forms allow-popups", "allow-top-navigation"},
+	"allow":       {"fullscreen", "camera; microphone", "geolocation 'self'"},
+	"srcdoc":      {"<script>alert(1)</script>", "<p>x</p>"},
+	"srcset":      {"a.png 1x, b.png 2x", "javascript:alert(1) 1x", "http://example.org/a.png 480w"},
+	"sizes":       {"100vw", "(max-width: 600px) 480px, 800px", "16x16", "any"},
+	"integrity":   {"sha384-oqVuAfXRKap7fdgcCY5uykM6+R9GqQ8K/uxy9rx7HNQlGYl1kPzQho1wx4JwY8wC", "sha256-x"},
+	"nonce":       {"abc123"},
+	"is":          {"my-x", "x-foo"},
+	"slot":        {"a"},
+	"part":        {"a b"},
+	"xmlns":       {"http://www.w3.org/2000/svg", "http://www.w3.org/1998/Math/MathML", "http://www.w3.org/1999/xhtml"},
+	"xmlns:xlink": {"http://www.w3.org/1999/xlink"},
+	"xml:lang":    {"en"}, "xml:space": {"preserve", "default"},
+	"encoding": {"text/html", "application/xhtml+xml", "TEXT/HTML"},
+	"datetime": {"2024-02-29", "2024-02-29T23:59:59Z", "2024-02-29 23:59", "P1D", "2024-W09"},
+	"value":    {"0", "1", "1.5", "-1", "on", "x"},
+	"width":    {"100", "100%", "0", "1e3", "auto"}, "height": {"100", "100%", "0"}, "span": {"1", "2", "1000"}, "colspan": {"1", "2", "0", "1001"}, "rowspan": {"1", "0", "65534", "65535"},
+	"coords":    {"0,0,10,10", "5,5,3", "1,2,3,4,5,6"},
+	"usemap":    {"#map1", "#", "map1"},
+	"name":      {"map1", "q", "referrer", "viewport", "_charset_", "isindex"},
+	"id":        {"a1", "x:y", "main", "constructor", "__proto__"},
+	"class":     {"a", "a b", "btn btn-primary", "é"},
+	"tabindex":  {"0", "-1", "1"},
+	"accesskey": {"a", "a b"},
+	"inputmode": {"numeric", "none", "text"},
+	"start":     {"1", "-5", "0"},
+	"face":      {"Arial", "Times New Roman, serif"}, "color": {"red", "#ff0000", "#f00", "rgb(1,2,3)"}, "bgcolor": {"#ffffff", "white"}, "size": {"1", "+1", "7", "-2"}, "border": {"0", "1"}, "cellpadding": {"0", "5"}, "cellspacing": {"0"},
+}
+
+// WellKnownAttrValue returns a well-known value for key, if the table has one.
+func WellKnownAttrValue(r *rand.Rand, key string) (string, bool) {
+	v, ok := WellKnownAttrValues[key]
+	if !ok || len(v) == 0 {
+		return "", false
+	}
+	return v[r.Intn(len(v))], true
+}
